@@ -125,10 +125,10 @@ func copyHandler(ctx context.Context, r *script.Rec, stmt int, op string, w wire
 
 // c13Exp is what the reference model expects.
 type c13Exp struct {
-	start   []string   // allowed replies to the message that starts the COPY (Query / Execute)
-	replies [][]string // allowed replies per following letter
-	handler []string   // "chunk:<payload>", "eof", "error" in the order the handler observes them
-	closedAt int       // index of the letter that closes the connection (Terminate outside COPY), -1 = none
+	start    []string   // allowed replies to the message that starts the COPY (Query / Execute)
+	replies  [][]string // allowed replies per following letter
+	handler  []string   // "chunk:<payload>", "eof", "error" in the order the handler observes them
+	closedAt int        // index of the letter that closes the connection (Terminate outside COPY), -1 = none
 }
 
 // c13Policy is the reference model of a handler policy: it reacts to what a
